@@ -162,8 +162,13 @@ def set_objective(
     """
     interface = model.problem
     reverse_value = model.solver.objective.expression
+    # the objective that is put back on exit keeps its name: helpers such as
+    # fix_objective_as_constraint and add_pfba recognise their work by it
     reverse_value = interface.Objective(
-        reverse_value, direction=model.solver.objective.direction, sloppy=True
+        reverse_value,
+        direction=model.solver.objective.direction,
+        sloppy=True,
+        name=model.solver.objective.name,
     )
 
     # record the undo first, the objective is replaced step by step below
